@@ -1,13 +1,14 @@
 PROP = dict(
-  units=['hp'],
+  units=['he', 'hp'],
   level='proof',
   strict_obligations=True,
-  obligations=['hp.slot.roundtrip', 'hp.initialize.all_free', 'hp.alloc.k_available', 'hp.alloc.exhausted_throws', 'hp.release.returns_slot', 'hp.guard_ops.preserve_inv',
+  obligations=['he.slot.roundtrip', 'he.alloc.*', 'he.initialize.all_free', 'he.release.returns_slot', 'he.count.exact', 'he.guard_ops.*', 'he.acquire.exc_safe', 'he.acquire.null_holds_no_slot', 'he.acquire_if_equal.exc_safe', 'he.dyn.never_throws', 'he.dyn.new_block', 'he.ctor.protects', 'he.copy.shares', 'he.move.empties_source', 'he.reset.releases',
+               'hp.slot.roundtrip', 'hp.initialize.all_free', 'hp.alloc.k_available', 'hp.alloc.exhausted_throws', 'hp.release.returns_slot', 'hp.guard_ops.preserve_inv',
                'hp.guard_ops.empty_holds_no_slot', 'hp.ctor.protects', 'hp.copy.shares', 'hp.move.empties_source', 'hp.reset.releases', 'hp.reset.idempotent', 'hp.swap.exchanges',
                'hp.dynamic.initialize.relinks_all', 'hp.dynamic.alloc.distinct', 'hp.dynamic.need_more.never_throws', 'hp.acquire_if_equal.iff', 'hp.acquire.validated'],
   explanation='Slot free-list invariant Inv_K (ghost chain positions; arbitrary subset held, arbitrary chain order) of the static and dynamic hazard-pointer strategies: K slots available, '
               'exhaustion throws with the state intact, every release returns the slot, a guard that protects nothing holds no slot, re-initialisation of an arbitrary left-over record relinks every slot of every block; '
-              'all guard operations preserve the invariant on every exit including the exceptional one. (hazard_eras: unit he, added when present.)',
+              'all guard operations preserve the invariant on every exit including the exceptional one. Same for hazard_eras (unit he: shared slots with guard counts, era cache invariant).',
   assumptions=['shapes K in {1,2,3,5} (thorough 8), dynamic: 0..2 left-over blocks (thorough 3)', 'acquire_entry returns a control block with arbitrary slot contents; retire side is a stub here',
                'address model: hazard_pointer* <-> slot word through an explicit injective map (base + 8*index)'],
   trusted_base=[],
